@@ -153,7 +153,7 @@ def check_obligation(ob, timeout_ms=10000):
     if r == z3.unsat:
         return 'discharged', 'z3', dt, None
     if r == z3.sat:
-        return 'refuted', 'z3', dt, s.model()
+        return refine(ob, s, dt, timeout_ms)
     # second opinion: cvc5 on the SMT-LIB text
     from .cvc5_backend import cvc5_check
     r2, dt2 = cvc5_check(s.to_smt2(), timeout_ms * 3)
@@ -162,6 +162,49 @@ def check_obligation(ob, timeout_ms=10000):
     if r2 == 'sat':
         return 'refuted', 'cvc5', dt + dt2, None
     return 'unknown', 'z3+cvc5:' + s.reason_unknown(), dt + dt2, None
+
+
+def _apps(term, name, acc, seen):
+    if term.get_id() in seen:
+        return
+    seen.add(term.get_id())
+    if z3.is_app(term):
+        if term.decl().name() == name:
+            acc.append(term)
+        for ch in term.children():
+            _apps(ch, name, acc, seen)
+    elif z3.is_quantifier(term):
+        _apps(term.body(), name, acc, seen)
+
+
+def refine(ob, solver, dt, timeout_ms):
+    """The trusted library functions are uninterpreted in the proof.  A counter-model that relies on an
+    impossible interpretation (py_int("0") == 7) is useless as a witness, so the refutation is re-solved
+    with the definitional instances of py_int for the terms that occur.  unsat here means the obligation
+    holds under CPython's int(); sat gives a witness that can be replayed."""
+    from .pybuiltins import py_int, is_decimal
+    apps = []
+    seen = set()
+    for t in list(ob.hyps) + [ob.goal]:
+        _apps(t, 'py_int', apps, seen)
+    if not apps:
+        return 'refuted', 'z3', dt, solver.model()
+    t0 = time.time()
+    s2 = z3.Solver()
+    s2.set('timeout', timeout_ms)
+    s2.add(solver.assertions())
+    for a in apps:
+        x = a.arg(0)
+        neg = z3.PrefixOf(z3.StringVal('-'), x)
+        s2.add(z3.Implies(z3.And(is_decimal(x), z3.Not(neg)), a == z3.StrToInt(x)))
+        s2.add(z3.Implies(z3.And(is_decimal(x), neg), a == -z3.StrToInt(z3.SubString(x, 1, z3.Length(x) - 1))))
+    r = s2.check()
+    dt2 = dt + time.time() - t0
+    if r == z3.unsat:
+        return 'discharged', 'z3+int-definition', dt2, None
+    if r == z3.sat:
+        return 'refuted', 'z3', dt2, s2.model()
+    return 'refuted', 'z3', dt2, solver.model()
 
 
 def discharge(rep, timeout_ms=10000):
